@@ -26,7 +26,8 @@
 (***************************************************************************)
 EXTENDS Integers, Sequences, FiniteSets, TLC
 
-CONSTANTS Conns,        \* connections that may be accepted
+CONSTANTS Order,        \* all connection names in descriptor order (the order in which Stop walks the table)
+          Conns,        \* connections that may be accepted
           PreOpen,      \* \subseteq Conns: accepted and registered before Stop can begin
           Dials,        \* connections added by a user goroutine (DialAsync / AddConn)
           Fix
@@ -45,86 +46,99 @@ VARIABLES lpc,        \* loop -> "new" | "run" | "got" | "exited"
           opened, notified,     \* notification counters
           wg,         \* wgConn
           spc,        \* stopper pc
-          snap,       \* connections collected by Stop
+          aq,         \* the engine's asynchronous queue (timer.Async): FIFO of <<"c", conn>> (Stop's close call) and
+                      \* <<"n", conn>> (close notification), executed one at a time by its drainer goroutine
           dpc,        \* dial -> "idle" | "added" | "done"
           stopped,    \* engine refuses additions (Fix atomicadd)
           misuse      \* ghost: wgConn.Add after Wait returned / counter below zero
-vars == <<lpc, flag, lclosed, woken, pending, inhand, table, state, opened, notified, wg, spc, snap, dpc, stopped, misuse>>
+vars == <<lpc, flag, lclosed, woken, pending, inhand, table, state, opened, notified, wg, spc, aq, dpc, stopped, misuse>>
 
 Init == /\ lpc = [l \in Loops |-> "new"] /\ flag = [l \in Loops |-> FALSE]
         /\ lclosed = FALSE /\ woken = FALSE
         /\ pending = Conns \ PreOpen /\ inhand = "none"
         /\ table = PreOpen /\ state = [c \in All |-> IF c \in PreOpen THEN "open" ELSE "none"]
         /\ opened = Cardinality(PreOpen) /\ notified = 0 /\ wg = 1 + Cardinality(PreOpen)
-        /\ spc = "idle" /\ snap = {} /\ dpc = [d \in Dials |-> "idle"] /\ stopped = FALSE /\ misuse = FALSE
+        /\ spc = "idle" /\ aq = <<>> /\ dpc = [d \in Dials |-> "idle"] /\ stopped = FALSE /\ misuse = FALSE
 
 Waited == spc \in {"pollers", "joinall", "done"}          \* wgConn.Wait has returned
 
 (* ---- loops ---- *)
 LBegin(l) == /\ lpc[l] = "new" /\ lpc' = [lpc EXCEPT ![l] = "run"]
              /\ flag' = IF "noreset" \in Fix THEN flag ELSE [flag EXCEPT ![l] = FALSE]
-             /\ UNCHANGED <<lclosed, woken, pending, inhand, table, state, opened, notified, wg, spc, snap, dpc, stopped, misuse>>
+             /\ UNCHANGED <<lclosed, woken, pending, inhand, table, state, opened, notified, wg, spc, aq, dpc, stopped, misuse>>
 
 LAccept == /\ lpc["acc"] = "run" /\ ~flag["acc"] /\ pending # {} /\ ~lclosed
-           /\ \E c \in pending : pending' = pending \ {c} /\ inhand' = c
+           /\ LET c == SelectSeq(Order, LAMBDA x : x \in pending)[1] IN       \* the listen queue is FIFO
+                pending' = pending \ {c} /\ inhand' = c
            /\ lpc' = [lpc EXCEPT !["acc"] = "got"]
-           /\ UNCHANGED <<flag, lclosed, woken, table, state, opened, notified, wg, spc, snap, dpc, stopped, misuse>>
+           /\ UNCHANGED <<flag, lclosed, woken, table, state, opened, notified, wg, spc, aq, dpc, stopped, misuse>>
 
 LRegister == /\ lpc["acc"] = "got"
              /\ table' = table \cup {inhand} /\ state' = [state EXCEPT ![inhand] = "open"]
              /\ opened' = opened + 1 /\ wg' = wg + 1 /\ misuse' = (misuse \/ Waited)
              /\ inhand' = "none" /\ lpc' = [lpc EXCEPT !["acc"] = "run"]
-             /\ UNCHANGED <<flag, lclosed, woken, pending, notified, spc, snap, dpc, stopped>>
+             /\ UNCHANGED <<flag, lclosed, woken, pending, notified, spc, aq, dpc, stopped>>
 
 \* the accept loop leaves when it sees the flag (Accept fails once the listener is closed);
 \* the event loop leaves when it sees the flag after a wake-up
 LExit(l) == /\ lpc[l] = "run" /\ flag[l]
             /\ IF l = "acc" THEN lclosed ELSE woken
             /\ lpc' = [lpc EXCEPT ![l] = "exited"]
-            /\ UNCHANGED <<flag, lclosed, woken, pending, inhand, table, state, opened, notified, wg, spc, snap, dpc, stopped, misuse>>
+            /\ UNCHANGED <<flag, lclosed, woken, pending, inhand, table, state, opened, notified, wg, spc, aq, dpc, stopped, misuse>>
 
 (* ---- user goroutine adding a connection ---- *)
+Before(a, b) == \E i, j \in 1..Len(Order) : Order[i] = a /\ Order[j] = b /\ i < j
 DAdd(d) == /\ dpc[d] = "idle" /\ lpc["ev"] # "new"
+           /\ \A e \in Dials : Before(e, d) => dpc[e] # "idle"      \* (symmetry: additions happen in name order)
            /\ IF "atomicadd" \in Fix /\ stopped
                 THEN /\ state' = [state EXCEPT ![d] = "refused"] /\ dpc' = [dpc EXCEPT ![d] = "done"]
                      /\ UNCHANGED <<table, opened, wg, misuse>>
                 ELSE /\ table' = table \cup {d} /\ state' = [state EXCEPT ![d] = "open"]
                      /\ opened' = opened + 1 /\ wg' = wg + 1 /\ misuse' = (misuse \/ Waited)
                      /\ dpc' = [dpc EXCEPT ![d] = "done"]
-           /\ UNCHANGED <<lpc, flag, lclosed, woken, pending, inhand, notified, spc, snap, stopped>>
+           /\ UNCHANGED <<lpc, flag, lclosed, woken, pending, inhand, notified, spc, aq, stopped>>
 
-(* ---- a connection ends: by its peer, or closed by Stop ---- *)
-CloseConn(c) == /\ state' = [state EXCEPT ![c] = "closed"] /\ table' = table \ {c}
-                /\ notified' = notified + 1 /\ wg' = wg - 1
+(* ---- a connection ends: by its peer, or closed by Stop; the notification goes through the asynchronous queue ---- *)
+CloseConn(c, q) == /\ state' = [state EXCEPT ![c] = "closed"] /\ table' = table \ {c}
+                   /\ aq' = Append(q, <<"n", c>>)
 PClose(c) == /\ state[c] = "open" /\ lpc["ev"] = "run"       \* the event loop sees the hang-up
-             /\ CloseConn(c)
-             /\ UNCHANGED <<lpc, flag, lclosed, woken, pending, inhand, opened, spc, snap, dpc, stopped, misuse>>
+             /\ CloseConn(c, aq)
+             /\ UNCHANGED <<lpc, flag, lclosed, woken, pending, inhand, opened, notified, wg, spc, dpc, stopped, misuse>>
+\* the drainer of the asynchronous queue executes its head
+ARun == /\ aq # <<>>
+        /\ LET j == Head(aq) IN
+           IF j[1] = "c"
+             THEN /\ IF state[j[2]] = "open" THEN CloseConn(j[2], Tail(aq))
+                                             ELSE aq' = Tail(aq) /\ UNCHANGED <<state, table>>
+                  /\ UNCHANGED <<notified, wg>>
+             ELSE /\ notified' = notified + 1 /\ wg' = wg - 1 /\ aq' = Tail(aq) /\ UNCHANGED <<state, table>>
+        /\ UNCHANGED <<lpc, flag, lclosed, woken, pending, inhand, opened, spc, dpc, stopped, misuse>>
 
 (* ---- Stop ---- *)
 SListeners == /\ spc = "idle" /\ lpc["acc"] # "x"
               /\ flag' = [flag EXCEPT !["acc"] = TRUE] /\ lclosed' = TRUE
               /\ spc' = IF "joinlisteners" \in Fix THEN "join" ELSE "snap"
-              /\ UNCHANGED <<lpc, woken, pending, inhand, table, state, opened, notified, wg, snap, dpc, stopped, misuse>>
+              /\ UNCHANGED <<lpc, woken, pending, inhand, table, state, opened, notified, wg, aq, dpc, stopped, misuse>>
 SJoin == /\ spc = "join" /\ lpc["acc"] = "exited" /\ spc' = "snap"
-         /\ UNCHANGED <<lpc, flag, lclosed, woken, pending, inhand, table, state, opened, notified, wg, snap, dpc, stopped, misuse>>
-SSnapshot == /\ spc = "snap" /\ snap' = table /\ wg' = wg - 1 /\ stopped' = TRUE /\ spc' = "closeall"
+         /\ UNCHANGED <<lpc, flag, lclosed, woken, pending, inhand, table, state, opened, notified, wg, aq, dpc, stopped, misuse>>
+\* collect the table (in descriptor order) and submit one close call per connection to the asynchronous queue
+SSnapshot == /\ spc = "snap" /\ wg' = wg - 1 /\ stopped' = TRUE /\ spc' = "closeall"
+             /\ aq' = aq \o [i \in 1..Len(SelectSeq(Order, LAMBDA c : c \in table)) |->
+                                <<"c", SelectSeq(Order, LAMBDA c : c \in table)[i]>>]
              /\ UNCHANGED <<lpc, flag, lclosed, woken, pending, inhand, table, state, opened, notified, dpc, misuse>>
-SCloseOne == /\ spc = "closeall" /\ \E c \in snap :
-                  /\ snap' = snap \ {c}
-                  /\ IF state[c] = "open" THEN CloseConn(c) ELSE UNCHANGED <<state, table, notified, wg>>
-             /\ UNCHANGED <<lpc, flag, lclosed, woken, pending, inhand, opened, spc, dpc, stopped, misuse>>
-SWait == /\ spc = "closeall" /\ snap = {} /\ wg = 0 /\ spc' = "pollers"
-         /\ UNCHANGED <<lpc, flag, lclosed, woken, pending, inhand, table, state, opened, notified, wg, snap, dpc, stopped, misuse>>
+SWait == /\ spc = "closeall" /\ wg = 0 /\ spc' = "pollers"
+         /\ UNCHANGED <<lpc, flag, lclosed, woken, pending, inhand, table, state, opened, notified, wg, aq, dpc, stopped, misuse>>
 SPollers == /\ spc = "pollers" /\ flag' = [flag EXCEPT !["ev"] = TRUE] /\ woken' = TRUE /\ spc' = "joinall"
-            /\ UNCHANGED <<lpc, lclosed, pending, inhand, table, state, opened, notified, wg, snap, dpc, stopped, misuse>>
+            /\ UNCHANGED <<lpc, lclosed, pending, inhand, table, state, opened, notified, wg, aq, dpc, stopped, misuse>>
 SJoinAll == /\ spc = "joinall" /\ \A l \in Loops : lpc[l] = "exited" /\ spc' = "done"
-            /\ UNCHANGED <<lpc, flag, lclosed, woken, pending, inhand, table, state, opened, notified, wg, snap, dpc, stopped, misuse>>
+            /\ UNCHANGED <<lpc, flag, lclosed, woken, pending, inhand, table, state, opened, notified, wg, aq, dpc, stopped, misuse>>
 
 Next == \/ \E l \in Loops : LBegin(l) \/ LExit(l)
         \/ LAccept \/ LRegister
         \/ \E d \in Dials : DAdd(d)
         \/ \E c \in All : PClose(c)
-        \/ SListeners \/ SJoin \/ SSnapshot \/ SCloseOne \/ SWait \/ SPollers \/ SJoinAll
+        \/ ARun
+        \/ SListeners \/ SJoin \/ SSnapshot \/ SWait \/ SPollers \/ SJoinAll
 Spec == Init /\ [][Next]_vars /\ WF_vars(Next)
 
 (* ---- properties ---- *)
